@@ -204,3 +204,84 @@ package yqlib
 //@   ensures @error-means-no-tree implies(result1 != nil, result0 == nil)
 //@   loop 1:
 //@     invariant @stack-nodes forall(j, 0, len(stack), wfNode(stack[j]) && fresh(stack[j]))
+
+// ---------------------------------------------------------------------------------------------
+// candidate_node.go: tree construction primitives
+//
+// kidsOK is the data-structure invariant every decoder establishes and every primitive below
+// preserves: no nil children, mapping content in key/value pairs. It is assumed (not proved)
+// at the entry of the copy/add group, and it is a postcondition of the primitives that extend a node.
+
+//@ pred kidsOK(n) = forall(i, 0, len(n.Content), n.Content[i] != nil) && implies(n.Kind == MappingNode, len(n.Content) % 2 == 0)
+//@ pred sameScalarAttrs(a, b) = a.Kind == b.Kind && a.Style == b.Style && a.Tag == b.Tag && a.Value == b.Value && a.Anchor == b.Anchor && a.Alias == b.Alias && a.HeadComment == b.HeadComment && a.LineComment == b.LineComment && a.FootComment == b.FootComment && a.LeadingContent == b.LeadingContent && a.Line == b.Line && a.Column == b.Column
+
+//@ func (*CandidateNode).SetParent
+//@   props C07 C16 C11
+//@   requires n != nil
+//@   modifies n.Parent
+//@   ensures n.Parent == parent
+
+//@ func createScalarNode
+//@   props C16 C11
+//@   ensures result != nil && fresh(result) && result.Kind == ScalarNode && result.Value == stringValue && result.Key == nil && result.Parent == nil && len(result.Content) == 0
+//@   ensures implies(istype(value, int), result.Tag == "!!int")
+
+//@ func (*CandidateNode).doCopy
+//@   props C02 C03 C07 C16 C11
+//@   requires n != nil
+//@   ensures @fresh-copy result != nil && fresh(result) && sameScalarAttrs(result, n) && result.IsMapKey == n.IsMapKey && result.Parent == n.Parent
+//@   ensures @key-copied implies(n.Key == nil, result.Key == nil) && implies(n.Key != nil, result.Key != nil && fresh(result.Key) && result.Key.Value == n.Key.Value && result.Key.Tag == n.Key.Tag && result.Key.Kind == n.Key.Kind)
+//@   ensures @content-length len(result.Content) == ite(cloneContent, len(n.Content), 0)
+//@   ensures @children-fresh forall(i, 0, len(result.Content), result.Content[i] != nil && fresh(result.Content[i]) && result.Content[i].Parent == result)
+
+//@ func (*CandidateNode).Copy
+//@   props C02 C03 C07 C16 C11
+//@   requires n != nil
+//@   ensures @fresh-copy result != nil && fresh(result) && sameScalarAttrs(result, n) && result.IsMapKey == n.IsMapKey && result.Parent == n.Parent
+//@   ensures @key-copied implies(n.Key == nil, result.Key == nil) && implies(n.Key != nil, result.Key != nil && fresh(result.Key) && result.Key.Value == n.Key.Value && result.Key.Tag == n.Key.Tag && result.Key.Kind == n.Key.Kind)
+//@   ensures @content-length len(result.Content) == len(n.Content)
+//@   ensures @children-fresh forall(i, 0, len(result.Content), result.Content[i] != nil && fresh(result.Content[i]) && result.Content[i].Parent == result)
+
+//@ func (*CandidateNode).CopyWithoutContent
+//@   props C02 C03 C07 C16 C11
+//@   requires n != nil
+//@   ensures @fresh-copy result != nil && fresh(result) && sameScalarAttrs(result, n) && result.IsMapKey == n.IsMapKey && result.Parent == n.Parent
+//@   ensures @key-copied implies(n.Key == nil, result.Key == nil) && implies(n.Key != nil, result.Key != nil && fresh(result.Key) && result.Key.Value == n.Key.Value)
+//@   ensures @no-content len(result.Content) == 0
+
+//@ func (*CandidateNode).AddChild
+//@   props C02 C03 C07 C16 C11
+//@   let n0 = len(old(n.Content))
+//@   let v = n.Content[len(n.Content)-1]
+//@   requires n != nil && rawChild != nil
+//@   modifies n.Content
+//@   ensures @appended len(n.Content) == n0 + 1 && forall(i, 0, n0, n.Content[i] == old(n.Content[i]))
+//@   ensures @child-fresh v != nil && fresh(v) && v.Parent == n && sameScalarAttrs(v, rawChild) && len(v.Content) == len(old(rawChild.Content))
+//@   ensures @key-fresh v.Key != nil && fresh(v.Key) && v.Key.Parent == n
+//@   ensures @key-index {C03,C16} implies(old(rawChild.Key) == nil, v.Key.Value == itoa(n0))
+//@   ensures @key-kept implies(old(rawChild.Key) != nil, v.Key.Value == old(rawChild.Key.Value))
+
+//@ func (*CandidateNode).AddKeyValueChild
+//@   props C02 C03 C07 C16 C11
+//@   let n0 = len(old(n.Content))
+//@   requires n != nil && rawKey != nil && rawValue != nil
+//@   modifies n.Content
+//@   ensures @appended len(n.Content) == n0 + 2 && forall(i, 0, n0, n.Content[i] == old(n.Content[i])) && n.Content[n0] == result0 && n.Content[n0+1] == result1
+//@   ensures @key result0 != nil && fresh(result0) && result0.IsMapKey && result0.Parent == n && result0.Value == old(rawKey.Value) && result0.Tag == old(rawKey.Tag)
+//@   ensures @value result1 != nil && fresh(result1) && !result1.IsMapKey && result1.Parent == n && result1.Key == result0 && sameScalarAttrs(result1, rawValue)
+
+//@ func (*CandidateNode).AddChildren
+//@   props C02 C03 C07 C16 C11
+//@   let n0 = len(old(n.Content))
+//@   requires n != nil
+//@   assume forall(i, 0, len(children), children[i] != nil) && implies(n.Kind == MappingNode, len(children) % 2 == 0)
+//@   modifies n.Content
+//@   ensures @appended len(n.Content) == n0 + len(children) && forall(i, 0, n0, n.Content[i] == old(n.Content[i]))
+//@   ensures @children-fresh forall(i, n0, len(n.Content), n.Content[i] != nil && fresh(n.Content[i]) && n.Content[i].Parent == n)
+//@   loop 1:
+//@     invariant 0 <= i && i <= len(children) && i % 2 == 0
+//@     invariant len(n.Content) == n0 + i && forall(j, 0, n0, n.Content[j] == old(n.Content[j]))
+//@     invariant forall(j, n0, len(n.Content), n.Content[j] != nil && fresh(n.Content[j]) && n.Content[j].Parent == n)
+//@   loop 2:
+//@     invariant len(n.Content) == n0 + rangeidx() && forall(j, 0, n0, n.Content[j] == old(n.Content[j]))
+//@     invariant forall(j, n0, len(n.Content), n.Content[j] != nil && fresh(n.Content[j]) && n.Content[j].Parent == n)
